@@ -170,7 +170,7 @@ def main():
     if level == "proof" and obligations == 0:
         level = "other"
     lib.write_evidence(prop, tier, seed, level, coverage, list(getattr(H, "ASSUMPTIONS", [])), time.time() - t0,
-                       len(new_viol))
+                       len(new_viol), scratch=args.no_lean)
     lib.log(f"[{prop}] tier={tier} seed={seed} theorems {discharged}/{obligations} cases={stats.get('evaluations', 0)} "
             f"disagreements={len(disagreements)} violations={len(violations)} known={sorted(known_hits)} "
             f"rc={rc} {time.time() - t0:.1f}s")
